@@ -44,7 +44,7 @@ func batteryFor(prop string) string {
 		"C03": "fs_battery_test.go:VERIF_BATTERY=roundtrip",
 		"C06": "fs_battery_test.go:VERIF_BATTERY=torn",
 		"C16": "fs_battery_test.go:VERIF_BATTERY=torn;fs_model_test.go:VERIF_MODEL=rebuild",
-		"C17": "fs_model_test.go:VERIF_MODEL=rebuild",
+		"C17": "fs_model_test.go:VERIF_MODEL=foreign,rebuild",
 		"C04": "fs_battery_test.go:VERIF_BATTERY=positions",
 		"C05": "fs_battery_test.go:VERIF_BATTERY=appendonly",
 		"C08": "fs_battery_test.go:VERIF_BATTERY=tamper",
